@@ -121,7 +121,15 @@ func (p *Parser) Parse() (*Nexus, error) {
 				taxantax, taxlabels, err = p.parseTaxa()
 			case TREES:
 				// TREES BLOCK
-				treenames, treestrings, err = p.parseTrees()
+				// Several TREES blocks may be present: their trees are all kept
+				var blocknames, blockstrings []string
+				blocknames, blockstrings, err = p.parseTrees()
+				if treenames == nil {
+					treenames = make([]string, 0)
+					treestrings = make([]string, 0)
+				}
+				treenames = append(treenames, blocknames...)
+				treestrings = append(treestrings, blockstrings...)
 			case DATA:
 				// DATA/CHARACTERS BLOCK
 				names, sequences, nchar, ntax, datatype, missing, gap, err = p.parseData()
